@@ -317,6 +317,28 @@ namespace
         char big[70000]; // sizeof > 65535
     };
 
+    // element type whose k-th construction throws: the helpers' failure paths must release what
+    // they allocated with the parameters of the allocation
+    struct thrower_fail
+    {
+    };
+    int g_throw_at = 0, g_made = 0;
+    template <size_t S, size_t A>
+    struct alignas(A) Thrower
+    {
+        unsigned char b[S];
+        Thrower()
+        {
+            if (++g_made == g_throw_at)
+                throw thrower_fail{};
+        }
+        explicit Thrower(int)
+        {
+            if (++g_made == g_throw_at)
+                throw thrower_fail{};
+        }
+    };
+
     using L0  = Leaf<0>;
     using L1  = Leaf<1>;
     using L2  = Leaf<2>;
@@ -543,7 +565,7 @@ namespace
         Verdict                 verdict;
         bool                    failed = false;
         unsigned n_array2 = 0, n_below = 0, n_above = 0, n_default_full = 0, n_default_again = 0,
-                 n_ok = 0, n_rel = 0, n_typed = 0;
+                 n_ok = 0, n_rel = 0, n_typed = 0, n_typed_throw = 0;
         bool     default_was_full = false;
 
         Runner(const std::string& p, const Program& pr, CaseInfo& c_) : prop(p), prog(pr), ci(c_) {}
@@ -851,10 +873,83 @@ namespace
                 fail("typed-balance", "typed helper left memory outstanding");
             ++n_typed;
         }
+        // a constructor failure inside a smart-pointer helper: one allocation, one release of the
+        // same shape (validated by the slab), nothing outstanding, the exception arrives
+        template <class T>
+        void typed_throw(unsigned how, size_t n, unsigned k)
+        {
+            auto&      slab = Slab::get();
+            LeafState& ls   = env.leaves[3];
+            Leaf<3>    leaf(&ls);
+            size_t     log0 = slab.log().size();
+            const char* what = "";
+            bool        threw = false;
+            g_made            = 0;
+            try
+            {
+                switch (how % 4)
+                {
+                case 0:
+                    what       = "allocate_unique";
+                    g_throw_at = 1;
+                    (void)fm::allocate_unique<T>(leaf, 1);
+                    break;
+                case 1:
+                    what       = "allocate_unique_array";
+                    g_throw_at = int(1 + k % n);
+                    (void)fm::allocate_unique<T[]>(leaf, n);
+                    break;
+                case 2:
+                    what       = "allocate_shared";
+                    g_throw_at = 1;
+                    (void)fm::allocate_shared<T>(leaf, 1);
+                    break;
+                default:
+                    what       = "allocate_unique(any_allocator)";
+                    g_throw_at = 1;
+                    (void)fm::allocate_unique<T>(fm::any_allocator{}, leaf, 1);
+                }
+            }
+            catch (thrower_fail&)
+            {
+                threw = true;
+            }
+            g_throw_at = 0;
+            std::string tag = std::string("typed-throw-") + what;
+            if (!threw)
+                fail(tag, "the constructor's exception did not arrive");
+            else if (slab.last_error())
+                fail(tag, slab.last_error());
+            else if (slab.log().size() != log0 + 2)
+                fail(tag, "expected one allocation and one release after the constructor failure, saw "
+                              + std::to_string(slab.log().size() - log0) + " leaf calls");
+            else if (ls.live != 0)
+                fail(tag, "memory left outstanding after the constructor failure");
+            ++n_typed;
+            ++n_typed_throw;
+        }
         void op_typed(const Op& op)
         {
             size_t n = 1 + op.c % 5;
-            switch (op.a % 9)
+            if (op.a % 13 >= 9)
+            {
+                switch (op.a % 13)
+                {
+                case 9:
+                    typed_throw<Thrower<1, 1>>(op.b, n, op.c / 5);
+                    break;
+                case 10:
+                    typed_throw<Thrower<24, 8>>(op.b, n, op.c / 5);
+                    break;
+                case 11:
+                    typed_throw<Thrower<100, 4>>(op.b, n, op.c / 5);
+                    break;
+                default:
+                    typed_throw<Thrower<4096, 64>>(op.b, n, op.c / 5);
+                }
+                return;
+            }
+            switch (op.a % 13)
             {
             case 0:
                 typed_one<Obj<1, 1>>(op.b, n);
@@ -1012,6 +1107,8 @@ namespace
                 ci.classes.insert("both-sides-of-threshold");
             if (n_typed)
                 ci.classes.insert("typed-helper");
+            if (n_typed_throw)
+                ci.classes.insert("typed-helper-constructor-failure");
             ci.counters["requests_ok"] += n_ok;
             ci.counters["releases"] += n_rel;
             ci.counters["typed"] += n_typed;
